@@ -37,12 +37,12 @@ func runC07(r *core.Run) {
 	errSites(r, ef, "R07.1")
 
 	// R07.5 consumers
-	allowedConsumers := map[string]string{
-		"(*tds.Channel).tryParsePackage": "the retry loop itself (R07.3)",
+	allowedConsumers := map[*ssa.Function]string{
+		p.Func("tds", "Channel", "tryParsePackage"): "the retry loop itself (R07.3)",
 	}
 	for fn := range ef.Consumers {
 		name := core.FuncName(fn)
-		if why, ok := allowedConsumers[name]; ok {
+		if why, ok := allowedConsumers[fn]; ok {
 			r.OK("R07.5", name, fn.Pos(), "enumerated consumer: "+why)
 		} else {
 			r.Bad("R07.5", name, fn.Pos(), "performs wire reads but does not return an error: a short read cannot be reported as ErrNotEnoughBytes")
